@@ -19,8 +19,10 @@ EXTENDS Naturals, Sequences, FiniteSets, TLC
 Types == {"INTEGER", "REAL", "DOUBLE PRECISION", "COMPLEX", "LOGICAL", "CHARACTER", "TYPE(t)", "CLASS(t)"}
 Sels  == {"none", "(4)", "(kind=8)", "*8", "(len=*)", "(len=:)", "(len=5, kind=1)", "(kind=selected_real_kind(6, 30))"}
 Attrs == {"INTENT(IN)", "INTENT(OUT)", "INTENT(INOUT)", "DIMENSION(:)", "DIMENSION(3, 2)", "ALLOCATABLE", "POINTER",
-          "TARGET", "OPTIONAL", "SAVE", "PARAMETER", "CONTIGUOUS"}
-Decos == {"none", "dims(3)", "val:3", "val:3 * (2 + 1)", "val:'a(b'"}
+          "TARGET", "OPTIONAL", "SAVE", "PARAMETER", "CONTIGUOUS", "VALUE", "VOLATILE", "ASYNCHRONOUS"}
+\* values with a comma at nesting depth 1, and a character value holding a comma, parentheses and "!"
+Decos == {"none", "dims(3)", "val:3", "val:3 * (2 + 1)", "val:'a(b'", "val:max(1, 2)", "val:'(a, i0)!'"}
+CharVals == {"val:'a(b'", "val:'(a, i0)!'"}
 Docs  == {"none", "before", "after", "trailing", "trailingComment", "beforeComment", "beforeBlank"}
 \* trailingComment: "!<" doc on the declaration line, an ordinary "!" comment on the next line
 \* beforeComment : "!>" block, then the declaration, then an ordinary "!" comment
@@ -30,7 +32,7 @@ VARIABLES mode, ty, sel, attrs, deco, doc, dummy, exp, call, cursor, active
 vars == <<mode, ty, sel, attrs, deco, doc, dummy, exp, call, cursor, active>>
 
 AttrSet(a) == {a[i] : i \in 1..Len(a)}
-IsVal(d) == d \in {"val:3", "val:3 * (2 + 1)", "val:'a(b'"}
+IsVal(d) == d \in {"val:3", "val:3 * (2 + 1)", "val:max(1, 2)"} \cup CharVals
 Numeric(t) == t \in {"INTEGER", "REAL", "COMPLEX", "LOGICAL"}
 
 Legal(t, s, a, d, dm) ==
@@ -56,7 +58,12 @@ Legal(t, s, a, d, dm) ==
   /\ (d = "dims(3)" => A \cap {"DIMENSION(:)", "DIMENSION(3, 2)"} = {})
   /\ ("PARAMETER" \in A <=> IsVal(d))
   /\ ("PARAMETER" \in A => A \cap {"ALLOCATABLE", "POINTER", "TARGET", "SAVE", "DIMENSION(:)", "DIMENSION(3, 2)"} = {} /\ t \in {"INTEGER", "CHARACTER", "REAL"})
-  /\ (d = "val:'a(b'" <=> ("PARAMETER" \in A /\ t = "CHARACTER"))
+  /\ (d \in CharVals <=> ("PARAMETER" \in A /\ t = "CHARACTER"))
+  /\ (d = "val:max(1, 2)" => t = "INTEGER")
+  /\ ("VALUE" \in A => dm /\ A \cap {"INTENT(OUT)", "INTENT(INOUT)", "POINTER", "ALLOCATABLE", "VOLATILE", "ASYNCHRONOUS", "DIMENSION(:)",
+                                       "DIMENSION(3, 2)", "CONTIGUOUS", "TARGET"} = {}
+                         /\ t # "CLASS(t)" /\ s \notin {"(len=*)", "(len=:)"} /\ d = "none")
+  /\ (A \cap {"VOLATILE", "ASYNCHRONOUS"} # {} => "PARAMETER" \notin A /\ "INTENT(IN)" \notin A)
   /\ (t = "CHARACTER" /\ "PARAMETER" \in A => s \in {"(len=*)", "(len=5, kind=1)", "none"} )
   /\ ("PARAMETER" \in A /\ s = "(len=*)" => TRUE)
 
@@ -70,7 +77,9 @@ Expected(t, s, a, d, dc, dm) ==
 AttrLists == {<<>>} \cup {<<x>> : x \in Attrs} \cup {<<x, y>> : x \in Attrs, y \in Attrs}
 
 (* ---- calls ---------------------------------------------------------------- *)
-ArgKinds == {"plain", "nested", "string", "kw2", "kw3"}     \* kwN: keyword naming parameter N
+\* kwN: keyword naming parameter N;  cmp: a positional argument "p2 == 0" - a comparison whose left operand is
+\* spelled like a dummy argument of the callee (not a keyword: "==" is not "=")
+ArgKinds == {"plain", "nested", "string", "kw2", "kw3", "cmp"}
 Calls == UNION {[1..n -> ArgKinds] : n \in 1..3}
 \* keyword arguments must name a parameter not already given and follow positional ones
 CallOk(c) == /\ \A i \in 1..Len(c) : (c[i] = "kw2" => i <= 2) /\ (c[i] = "kw3" => i <= 3)
